@@ -813,6 +813,13 @@ where
             return Err(Error::ReadOnly);
         }
 
+        // A file cannot grow beyond MAX_FILE_SIZE. Refuse a buffer that does
+        // not fit, rather than silently dropping the end of it.
+        let room = MAX_FILE_SIZE - data.open_files[file_idx].current_offset;
+        if u32::try_from(buffer.len()).map_or(true, |len| len > room) {
+            return Err(Error::NotEnoughSpace);
+        }
+
         data.open_files[file_idx].dirty = true;
 
         if data.open_files[file_idx].entry.cluster.0 < fat::RESERVED_ENTRIES {
